@@ -18,7 +18,7 @@ one() {
 "; fi
   done
   note=$(head -c 300 ${f%.patch}.txt 2>/dev/null | tr '\n' ' ')
-  { echo "# breaks: BENIGN"; echo "# note: (sub-agent refactor) $note"; (cd $S/repo && git diff); } > $V/benign/$N-$x.patch
+  { echo "# breaks: BENIGN"; echo "# note: (sub-agent refactor) $note"; (cd $S/repo && git diff HEAD); } > $V/benign/$N-$x.patch
   echo "$N-$x fired=[${fired# }]"; [ -n "$fired" ] && printf "%s" "$detail"
   rm -rf $S
 }
